@@ -16,6 +16,9 @@ CONSTANTS
   CountOld = FALSE
   ExitCurrent = FALSE
   Remap <- MCRemap3
+  Points <- MCPoints0
+  SkipAll = FALSE
+  CompAbort = FALSE
 VIEW view
 INVARIANTS TypeOK Conserved CounterOK Capped PendCapped ZeroAfterDrain DecisionOK OneObject FigureInRange
 CHECK_DEADLOCK FALSE
